@@ -72,6 +72,8 @@ func trimStack(s string) string {
 	return strings.Join(keep, " | ")
 }
 
+func tplSeqNext() int64 { return atomic.AddInt64(&tplSeq, 1) }
+
 // ParseReg parses src and registers it under a fresh key.
 func ParseReg(src []byte, keepFmt bool) (key string, o Obs) {
 	key = fmt.Sprintf("vh%d", atomic.AddInt64(&tplSeq, 1))
